@@ -94,3 +94,9 @@ func VerifH_C12_ResponseOPT_S8() {
 		verifrt.Assert(n == 0, "query without OPT: no OPT in the response")
 	}
 }
+
+// VerifH_C12_OPTSurvivesTruncation: "exactly one OPT iff the query contained one" also when the response has to be
+// cut down to the client's advertised size: the UDP listener end to end with ~780 octets of upstream answers and a
+// client OPT advertising ANY 16-bit payload size (the scenario of C09_UDPClientSize, registered under the EDNS0
+// property as well): the OPT is never what gets dropped, and a query without OPT never gets one.
+func VerifH_C12_OPTSurvivesTruncation() { VerifH_C09_UDPClientSize() }
